@@ -71,6 +71,18 @@ def one(rng, crop, soil, method, i):
     elif r < 0.12:
         end = p0 + dt.timedelta(days=int(rng.integers(3, 60)))   # partial season, may end in planting year
         edge = "partial"
+    elif r < 0.17 and span is None and not thermal and not c["kw"].get("SwitchGDD"):
+        # default latest harvest date (planting + days to maturity + 30) that falls on/around
+        # 29 February of a leap year
+        ly = int(gen.pick(rng, [1988, 1992, 1996, 2000, 2004, 2008, 2012]))
+        tgt = dt.date(ly, 2, 29) + dt.timedelta(days=int(gen.pick(rng, [-1, 0, 0, 1])))
+        pl = tgt - dt.timedelta(days=gen.crop_len_days(crop) + 30)
+        if not (pl.month == 2 and pl.day == 29):
+            c["planting"] = f"{pl.month:02d}/{pl.day:02d}"
+            c["harvest"] = None
+            start = pl - dt.timedelta(days=int(gen.pick(rng, [0, 0, 3, 30])))
+            end = tgt + dt.timedelta(days=int(rng.integers(20, 500)))
+            edge = "default_harvest_near_feb29"
     if shape == "feb29" and edge is None:
         edge = "end_feb29"
     s = {"type": soil, "kw": {}}
